@@ -20,6 +20,7 @@ class Ctx:
     self.assumptions = []
     self.compaction = compaction
     self.notes = []
+    self.attached = {}     # alias -> file of ATTACH DATABASE statements seen by this connection
     self.guard = True      # presence condition of the row being evaluated (for conditional assumptions)
 
 
@@ -519,6 +520,33 @@ def order_limit(rel, q, ctx, combos):
 
 # ------------------------------------------------------------------ scripts
 
+def persisting_store(ctx):
+  """what is left for the next connection: unqualified (extensional) tables and the tables of
+  attached database *files*, keyed by file; tables of ':memory:' attachments are gone."""
+  out = {}
+  for key, rel in ctx.store.items():
+    if '::' in key:
+      out.setdefault(key, rel)
+      continue
+    if '.' in key:
+      alias, t = key.split('.', 1)
+      f = ctx.attached.get(alias)
+      if f is None:
+        out[key] = rel
+      elif f != ':memory:':
+        out['%s::%s' % (f, t)] = rel
+      continue
+    out[key] = rel
+  # a table dropped through its alias is dropped in the file
+  for alias, f in ctx.attached.items():
+    if f == ':memory:':
+      continue
+    for key in list(out):
+      if key.startswith(f + '::') and '%s.%s' % (alias, key[len(f) + 2:]) not in ctx.store:
+        del out[key]
+  return out
+
+
 def run_script(stmts, ctx):
   """Executes a list of parsed statements against ctx.store; returns Rel of the last
   select (or None).  Also records reads-before-writes for C14/C17."""
@@ -526,6 +554,13 @@ def run_script(stmts, ctx):
   for st in stmts:
     k = st[0]
     if k == 'attach':
+      # tables persisted in that file by earlier connections become visible under the alias;
+      # ':memory:' starts empty and dies with the connection (see persisting_store)
+      f, alias = st[1], st[2]
+      ctx.attached[alias] = f
+      for key in list(ctx.store):
+        if key.startswith(f + '::') and f != ':memory:':
+          ctx.store['%s.%s' % (alias, key[len(f) + 2:])] = ctx.store[key]
       continue
     if k == 'drop':
       ctx.store.pop(st[1], None)
